@@ -88,7 +88,7 @@ def kind_weights(story=1.0, item=1.0, other=0.3, end=0.05):
 
 def fuzz_history(s, hidx, weights, steps=(5, 30), text='plain', timing='any', rich=True,
                  shape_weights=(0.78, 0.1, 0.08, 0.04), selfref=0.06, after_end=3, on_state=None,
-                 ro_kw=None, direct=0.0, blank_carried=0.0):
+                 ro_kw=None, direct=0.0, blank_carried=0.0, other_ro=0.05, drop=0.0):
     rng = s.rng('hist', hidx)
     pool = gen.text_pool(text)
     ids = gen.Ids('F%d.' % hidx)
@@ -107,7 +107,7 @@ def fuzz_history(s, hidx, weights, steps=(5, 30), text='plain', timing='any', ri
         kind = weighted_kinds(rng, weights)
         msg = gen.rand_message(rng, state, kind, 100 + k, ids, pool=pool, timing=timing,
                                shape_weights=shape_weights, selfref=selfref, rich=rich,
-                               blank_carried=blank_carried)
+                               blank_carried=blank_carried, other_ro=other_ro, drop=drop)
         if direct and not state.completed and rng.random() < direct:
             ro, err, v, ev = s.step_direct(ro, msg, {'history': hidx, 'step': k, 'direct': True})
         else:
@@ -427,7 +427,7 @@ def pair_histories(s, kinds=None, rounds=5, text='plain', timing='any', on_state
                 except ET.ParseError:
                     break
                 msg = gen.rand_message(rng, state, kind, 100 + step, ids, pool=pool, timing=timing,
-                                       shape_weights=shape_weights, selfref=0.0)
+                                       shape_weights=shape_weights, selfref=0.0, other_ro=0.08)
                 ro, err, v, ev = s.step(ro, msg, {'pair': (k1, k2), 'step': step})
                 if ev is not None and ev.get('post_xml'):
                     cur = ev['post_xml']
